@@ -88,6 +88,7 @@ type imp struct {
 // the property statements against the code; every line names the clause it serves).
 var propImports = map[string][]imp{
 	"C01": {
+		{"C01.18/core-passes-on", "C16", "the core hands on every message the transport delivered: pipe.RecvMsg gives up (and closes the pipe) only when the transport's Recv failed, so the receive limit that applies is the endpoint's own", []string{"C16.4/error-closes-only-that-pipe|pipe.RecvMsg"}},
 		{"C01.17/one-delivery-per-context", "C06", "one publication yields one receive per context: the SUB receiver queues a message once for a context however many of its subscriptions match", []string{"C06.2/receiver"}},
 		{"C01.16/cooked-bus-header", "C08", "a cooked BUS socket sends the body alone: a stale header of any length is discarded, not put on the wire in front of it", []string{"C08.2/bus-receive|bus.SendMsg"}},
 		{"C01.14/delivered-private", "C17", "a message handed to one receiver is not the buffer handed to another: what one does with its copy cannot change what the other reads", []string{"C17.3/shared-queue", "C17.6/unique-sites"}},
